@@ -173,6 +173,33 @@ pub fn run_router(case: &RouterCase) -> Option<RouterRun> {
     Some(RouterRun { sim, exec, pools })
 }
 
+
+/// the same route executed hop by hop by the user directly on the pairs (each Swap with the case's max_spread, the proceeds of one hop
+/// being the offer of the next): Some(true) when every hop was accepted
+pub fn run_hops_directly(case: &RouterCase) -> Option<bool> {
+    let mut w = deploy_router(case)?;
+    let user = "bob";
+    let mut offer = case.offer;
+    for h in &case.hops {
+        let (oi, ai) = (RouterCase::offer_asset(*h), RouterCase::ask_asset(*h));
+        let (oinfo, ainfo) = (w.assets[oi].clone(), w.assets[ai].clone());
+        let pair_addr = w.pairs[h.0].clone();
+        let before = asset_balance(&w.app, &ainfo, user);
+        let ms = case.max_spread.map(dec);
+        let r = std::panic::catch_unwind(std::panic::AssertUnwindSafe(|| match &oinfo {
+            AssetInfo::NativeToken { denom } => w.app.execute_contract(Addr::unchecked(user), pair_addr.clone(), &pair::ExecuteMsg::Swap {
+                offer_asset: Asset { info: oinfo.clone(), amount: Uint128::new(offer) }, belief_price: None, max_spread: ms, to: None }, &[coin(offer, denom)]),
+            AssetInfo::Token { contract_addr } => w.app.execute_contract(Addr::unchecked(user), Addr::unchecked(contract_addr),
+                &Cw20ExecuteMsg::Send { contract: pair_addr.to_string(), amount: Uint128::new(offer),
+                    msg: to_json_binary(&pair::Cw20HookMsg::Swap { belief_price: None, max_spread: ms, to: None }).unwrap() }, &[]),
+        }));
+        match r { Ok(Ok(_)) => {} _ => return Some(false) }
+        offer = asset_balance(&w.app, &ainfo, user).saturating_sub(before);
+        if oinfo == ainfo { return None; }
+    }
+    Some(true)
+}
+
 pub fn gen_router_case(rng: &mut Rng) -> RouterCase {
     let scale = *rng.pick(&[1_000_000u128, 1_000_000_000, 1_000_000_000_000_000]);
     let mut liq = [(0u128, 0u128); 3];
